@@ -260,7 +260,7 @@ func genHistory(r *vlib.Rng, n int) []hop {
 // ---------------------------------------------------------------- stack
 
 type sop struct {
-	Op   string `json:"op"` // set | req | break | mend
+	Op   string `json:"op"` // set | req | break | mend | overlap (a request is held by the endpoint it was dispatched to; a health-check round passes every endpoint; then the held attempt is reset)
 	E    string `json:"e,omitempty"`
 	S    string `json:"s,omitempty"`
 	Kind string `json:"kind,omitempty"` // break: reset0 | close0
@@ -271,6 +271,8 @@ type sstep struct {
 	After     map[string]string `json:"after"`               // … when it was over (quiesced)
 	Contacted []string          `json:"contacted,omitempty"` // req: backends that received it, in order
 	Status    int               `json:"status,omitempty"`
+	Held      string            `json:"held,omitempty"` // overlap: the endpoint that held the request while the health-check round ran
+	Mid       map[string]string `json:"mid,omitempty"`  // overlap: repository statuses after the health-check round, the attempt still held
 }
 
 type stackCase struct {
@@ -324,6 +326,7 @@ func runStack(sc *stackCase) map[string]any {
 	}
 	var steps []sstep
 	reqNo := 0
+	brokenNow := map[string]string{}
 	for _, o := range sc.Ops {
 		st := sstep{Before: s.Statuses()}
 		switch o.Op {
@@ -331,8 +334,10 @@ func runStack(sc *stackCase) map[string]any {
 			s.SetStatus(o.E, domain.EndpointStatus(o.S))
 		case "break":
 			byName[o.E].SetBehaviour(stack.Behaviour{Kind: o.Kind})
+			brokenNow[o.E] = o.Kind
 		case "mend":
 			byName[o.E].SetBehaviour(scen.OkBeh(o.E, 200, 20, false, "application/json"))
+			delete(brokenNow, o.E)
 		case "req":
 			reqNo++
 			for _, b := range backends {
@@ -345,6 +350,67 @@ func runStack(sc *stackCase) map[string]any {
 			raw := stack.Request("POST", "/olla/proxy/v1/chat/completions", s.Addr, [][2]string{{"Content-Type", "application/json"}}, []byte(body), false)
 			r := stack.Do(s.Addr, raw, 5*time.Second)
 			st.Status = r.Status
+			var all []*stack.Seen
+			for _, b := range backends {
+				all = append(all, b.Taken()...)
+			}
+			sort.Slice(all, func(i, j int) bool { return all[i].Seq < all[j].Seq })
+			st.Contacted = []string{}
+			for _, x := range all {
+				st.Contacted = append(st.Contacted, x.Backend)
+			}
+		case "overlap":
+			reqNo++
+			for _, b := range backends {
+				b.Taken()
+			}
+			arrived, release := make(chan string, 8), make(chan struct{})
+			for _, b := range backends {
+				name := b.Name
+				b.SetScript(func(int, *stack.Seen) stack.Behaviour {
+					select {
+					case arrived <- name:
+					default:
+					}
+					<-release
+					return stack.Behaviour{Kind: "reset0"}
+				})
+			}
+			body := fmt.Sprintf(`{"messages":[{"role":"user","content":"o%d"}]}`, reqNo)
+			raw := stack.Request("POST", "/olla/proxy/v1/chat/completions", s.Addr, [][2]string{{"Content-Type", "application/json"}}, []byte(body), false)
+			done := make(chan *stack.Resp, 1)
+			go func() { done <- stack.Do(s.Addr, raw, 8*time.Second) }()
+			st.Held = ""
+			select {
+			case n := <-arrived:
+				st.Held = n
+				// a whole health-check round through the real checker: every backend answers its health probe with 200
+				if hc, err := s.Disc.GetHealthChecker(); err == nil {
+					_ = hc.RunHealthCheck(context.Background(), true)
+				}
+				st.Mid = quiesceStatuses(s)
+			case <-time.After(1500 * time.Millisecond): // nobody was routable
+			}
+			// the held attempt dies; the endpoints behind it answer
+			for _, b := range backends {
+				if b.Name != st.Held {
+					if k, ok := brokenNow[b.Name]; ok {
+						b.SetBehaviour(stack.Behaviour{Kind: k})
+					} else {
+						b.SetBehaviour(scen.OkBeh(b.Name, 200, 20, false, "application/json"))
+					}
+				}
+			}
+			close(release)
+			r := <-done
+			st.Status = r.Status
+			if st.Held != "" { // the held endpoint goes back to what it was doing
+				if k, ok := brokenNow[st.Held]; ok {
+					byName[st.Held].SetBehaviour(stack.Behaviour{Kind: k})
+				} else {
+					byName[st.Held].SetBehaviour(scen.OkBeh(st.Held, 200, 20, false, "application/json"))
+				}
+			}
 			var all []*stack.Seen
 			for _, b := range backends {
 				all = append(all, b.Taken()...)
@@ -421,6 +487,12 @@ func cornerStacks() []*stackCase {
 				&stackCase{Engine: engine, Balancer: bal, Names: []string{"A", "B"}, Prios: p, Ops: []sop{
 					{Op: "req"}, {Op: "break", E: "A", Kind: "reset0"}, {Op: "req"}, {Op: "req"}, {Op: "mend", E: "A"}, {Op: "req"}, {Op: "req"},
 					{Op: "set", E: "A", S: "healthy"}, {Op: "req"}, {Op: "req"}}},
+				// a health-check round passes the endpoint while it holds a request; then that attempt fails: the failure is the
+				// newer fact, the endpoint gets nothing until a later check readmits it
+				&stackCase{Engine: engine, Balancer: bal, Names: []string{"A", "B"}, Prios: p, Ops: []sop{
+					{Op: "req"}, {Op: "overlap"}, {Op: "req"}, {Op: "req"}, {Op: "set", E: "A", S: "healthy"}, {Op: "set", E: "B", S: "healthy"}, {Op: "req"}, {Op: "overlap"}, {Op: "req"}, {Op: "req"}}},
+				&stackCase{Engine: engine, Balancer: bal, Names: []string{"A", "B", "C"}, Prios: append(append([]int{}, p...), p[1]-map[bool]int{true: 100, false: 0}[bal == "priority"]), Ops: []sop{
+					{Op: "set", E: "B", S: "unhealthy"}, {Op: "overlap"}, {Op: "req"}, {Op: "req"}, {Op: "overlap"}, {Op: "req"}, {Op: "req"}}},
 				&stackCase{Engine: engine, Balancer: bal, Names: []string{"A", "B"}, Prios: p, Ops: []sop{
 					{Op: "set", E: "A", S: "unhealthy"}, {Op: "req"}, {Op: "set", E: "B", S: "offline"}, {Op: "req"}, {Op: "set", E: "A", S: "busy"}, {Op: "req"},
 					{Op: "set", E: "A", S: "warming"}, {Op: "req"}, {Op: "set", E: "B", S: "unknown"}, {Op: "req"}, {Op: "set", E: "B", S: "healthy"}, {Op: "req"}, {Op: "req"}}})
